@@ -21,9 +21,10 @@ type input struct {
 	Level    int    `json:"level"`    // level of the input ciphertexts
 	LogSlots int    `json:"logSlots"` // slots of each input ciphertext
 	Batch    int    `json:"batch"`
-	Mag      string `json:"mag"`   // unit | mid | max | const | onehot
-	Scale    string `json:"scale"` // default | pow2low | pow2max
-	Copy     bool   `json:"copy"`  // run on a ShallowCopy of the evaluator
+	Mag      string `json:"mag"`             // unit | mid | max | const | onehot
+	Scale    string `json:"scale"`           // default | pow2low | pow2max
+	Copy     bool   `json:"copy"`            // run on a ShallowCopy of the evaluator
+	Chain    bool   `json:"chain,omitempty"` // audit extension: bootstrap, drop back to Level, bootstrap again
 }
 
 // measurement is what one call produced (used by the calibration probe).
@@ -260,12 +261,22 @@ func (s *session) inputScale(in input) rlwe.Scale {
 		d := s.res.DefaultScale()
 		return rlwe.NewScale(f.Mul(f, &d.Value))
 	}
-	if in.Level > 0 || in.Scale == "default" {
-		return s.res.DefaultScale()
-	}
 	// largest power of two strictly below Q0/MessageRatio
 	q0 := float64(s.res.Q()[0])
 	top := int(math.Ceil(math.Log2(q0))) - 1 - s.cf.LogRatio
+	// audit extension: exact powers of two other than the default scale at level >= 1 (any scale is documented
+	// as admissible there; these stay below Q0/MessageRatio like the level-0 classes)
+	switch in.Scale {
+	case "pow2lvl-top":
+		return pow2Scale(top)
+	case "pow2lvl-up":
+		return pow2Scale(min(s.cf.ResLogScale+2, top))
+	case "pow2lvl-low":
+		return pow2Scale(min(s.cf.ResLogScale-3, top))
+	}
+	if in.Level > 0 || in.Scale == "default" {
+		return s.res.DefaultScale()
+	}
 	switch in.Scale {
 	case "pow2max":
 		return pow2Scale(top)
@@ -456,6 +467,9 @@ func (s *session) run(in input) {
 		c.Check(o.Degree() == 1 && o.Value[0].N() == s.res.N() && o.IsNTT == inMeta[i].IsNTT && o.IsBatched == inMeta[i].IsBatched && o.LogDimensions == inMeta[i].LogDimensions, sig+"|output-metadata", func() string {
 			return fmt.Sprintf("output %d: degree %d N %d meta %+v, input meta %+v", i, o.Degree(), o.Value[0].N(), *o.MetaData, inMeta[i])
 		})
+		c.Check(o.IsMontgomery == inMeta[i].IsMontgomery, sig+"|output-metadata|IsMontgomery", func() string {
+			return fmt.Sprintf("output %d: IsMontgomery=%v, input %v", i, o.IsMontgomery, inMeta[i].IsMontgomery)
+		})
 		if o.Level() != wantLevel || o.Value[0].N() != s.res.N() || o.Degree() != 1 {
 			m.Failed = true
 			return
@@ -548,4 +562,13 @@ func (s *session) witness(in input) any {
 func checkParamsStructure(c *eng.Ctx, cf cfg, res ckks.Parameters, btp bootstrapping.Parameters) {
 	structureChecks(c, res, btp)
 	c.Check(btp.EphemeralSecretWeight == cf.Eph && btp.LogMaxSlots() == cf.btpLogSlots() && btp.BootstrappingParameters.LogN() == cf.BtpLogN, "C18|NewParametersFromLiteral|literal-field-lost", nil)
+	// audit extension: the parameters object survives its own serialisation (a transported object must announce the
+	// same ephemeral weight, circuit order, depths and levels)
+	var back bootstrapping.Parameters
+	data, err := btp.MarshalBinary()
+	if err == nil {
+		err = back.UnmarshalBinary(data)
+	}
+	c.Check(err == nil && btp.Equal(&back) && back.CircuitOrder == btp.CircuitOrder && back.EphemeralSecretWeight == btp.EphemeralSecretWeight && back.Depth() == btp.Depth() && back.LogMaxSlots() == btp.LogMaxSlots(),
+		"C18|Parameters.MarshalBinary|round-trip-differs", func() string { return fmt.Sprintf("err=%v (config %s)", err, cf.Name) })
 }
